@@ -378,9 +378,9 @@ def rule_r3(chk, p, t, ea):
         r.guard(cons, sib)
 
 
-def rule_r4(chk, p, t, ea):
+def rule_r4(chk, p, t, ea, rid="C08.R4"):
     r = chk.rule(
-        "C08.R4",
+        rid,
         "application of pointing updates and routing of observations",
         8,
         "after assess() the scenario applies every entry of sensor_changes to the agent of that key and routes "
@@ -511,6 +511,18 @@ def rule_r4(chk, p, t, ea):
                 loopvar = lp.target.id if isinstance(lp.target, ast.Name) else None
         if not (isinstance(sid, ast.Attribute) and sid.attr == "simulation_id" and isinstance(sid.value, ast.Name) and sid.value.id == loopvar):
             bad.append("sensor_id")
+        # the dict is built in the iteration that unpacked these values: lexically inside that loop's body, not in a
+        # second pass (a comprehension / loop after it sees the values the LAST iteration left behind)
+        loop = next((lp for lp in walk_no_nested(w.node) if isinstance(lp, ast.For) and any(x is unp for x in ast.walk(lp))), None)
+        in_same_loop = loop is not None and any(x is dct[0] for b_ in loop.body for x in ast.walk(b_))
+        in_comp = any(isinstance(cmp_, (ast.ListComp, ast.GeneratorExp, ast.DictComp, ast.SetComp)) and any(x is dct[0] for x in ast.walk(cmp_)) for cmp_ in walk_no_nested(w.node))
+        if not in_same_loop or in_comp:
+            r.violation(
+                w.qualname + ":sensor_info",
+                "worker-slots:stale-iteration",
+                "the worker builds the sensor-info records outside the iteration that collected them (a second pass / comprehension): every sensor of the job is reported with the boresight and last-tasked time the LAST sensor returned",
+                w.loc(dct[0]),
+            )
         if bad:
             r.violation(w.qualname + ":sensor_info", f"worker-slots:{sorted(bad)}", f"the worker's sensor-info dict fills {sorted(bad)} from the wrong value", w.loc(dct[0]))
         else:
